@@ -63,7 +63,7 @@ def TokOK (lim : Pos) (t : Token) : Prop :=
 
 /-- content facts the parser relies on: namespace identifiers contain a dot, annotations are not empty -/
 def TokWF (ty : TT) (val : Bytes) : Prop :=
-  (ty.isNS = true → cDot ∈ val) ∧ (ty = .annotation → val ≠ [])
+  (ty.isNS = true → cDot ∈ val) ∧ (ty = .annotation → val ≠ []) ∧ (ty = .crc32hash → val ≠ [])
 
 /-- invariant of the lexer state (tokens most recent first) -/
 structure LInv (text : Bytes) (s : LexState) : Prop where
@@ -132,11 +132,11 @@ def StepOK (text : Bytes) (s : LexState) : Step → Prop
   | .err s' e => LInv text s' ∧ e.tok ∈ s'.toks ∧ e.outer = e.tok.pos
   | .panic => False
 
-theorem tokWF_trivial {ty : TT} {val : Bytes} (h1 : ty.isNS = false) (h2 : ty ≠ .annotation) : TokWF ty val :=
-  ⟨fun h => by simp [h1] at h, fun h => absurd h h2⟩
+theorem tokWF_trivial {ty : TT} {val : Bytes} (h1 : ty.isNS = false) (h2 : ty ≠ .annotation) (h3 : ty ≠ .crc32hash) : TokWF ty val :=
+  ⟨fun h => by simp [h1] at h, fun h => absurd h h2, fun h => absurd h h3⟩
 
 theorem adv_ok {text : Bytes} {s : LexState} {n : Nat} (ty : TT) (hi : LInv text s) (h1 : 1 ≤ n) (h2 : n ≤ s.str.length)
-    (hwf : TokWF ty (s.str.take n) := by exact tokWF_trivial (by rfl) (by simp)) :
+    (hwf : TokWF ty (s.str.take n) := by exact tokWF_trivial (by rfl) (by simp) (by simp)) :
     StepOK text s (adv s n ty) := by
   obtain ⟨s', tok, h⟩ := advance_some ty h2
   have := advance_inv h hi hwf
@@ -146,14 +146,14 @@ theorem adv_ok {text : Bytes} {s : LexState} {n : Nat} (ty : TT) (hi : LInv text
 theorem advErr_ok {text : Bytes} {s : LexState} {n : Nat} (hi : LInv text s) (h2 : n ≤ s.str.length) :
     StepOK text s (advErr s n) := by
   obtain ⟨s', tok, h⟩ := advance_some .undefined h2
-  have := advance_inv h hi (tokWF_trivial rfl (by simp))
+  have := advance_inv h hi (tokWF_trivial rfl (by simp) (by simp))
   simp only [advErr, h, StepOK]
   exact ⟨this.1, by simp [this.2.2.1]⟩
 
 theorem advNewline_ok {text : Bytes} {s : LexState} {n : Nat} (hi : LInv text s) (h1 : 1 ≤ n) (h2 : n ≤ s.str.length) :
     StepOK text s (advNewline s n) := by
   obtain ⟨s', tok, h⟩ := advance_some .newLine h2
-  have := advance_inv h hi (tokWF_trivial rfl (by simp))
+  have := advance_inv h hi (tokWF_trivial rfl (by simp) (by simp))
   simp only [advNewline, h, StepOK]
   exact ⟨newlineFix_inv this.1, by simp only [newlineFix]; omega⟩
 
@@ -188,7 +188,10 @@ theorem lexNumberSign_ok {text : Bytes} {s : LexState} (hi : LInv text s) (h1 : 
   · exact adv_ok _ hi (by omega) (by omega)
   · split
     · exact advErr_ok hi (by omega)
-    · exact adv_ok _ hi (by omega) (by omega)
+    · refine adv_ok _ hi (by omega) (by omega) ⟨fun h => by simp [TT.isNS] at h, fun h => by simp at h, fun _ => ?_⟩
+      cases hs : s.str with
+      | nil => rw [hs] at h1; simp at h1
+      | cons c t => simp [Nat.add_comm 1]
 
 theorem lexNumber_ok {text : Bytes} {s : LexState} {c : UInt8} {t : Bytes} (hi : LInv text s) (hs : s.str = c :: t)
     (hd : digit c = true) : StepOK text s (lexNumber s) := by
@@ -210,7 +213,7 @@ theorem lexFunctionModifier_ok {text : Bytes} {s : LexState} (hi : LInv text s) 
   · exact advErr_ok hi (by omega)
   · split
     · exact advErr_ok hi (by omega)
-    · refine adv_ok _ hi (by omega) (by omega) ⟨fun h => by simp [TT.isNS] at h, fun _ => ?_⟩
+    · refine adv_ok _ hi (by omega) (by omega) ⟨fun h => by simp [TT.isNS] at h, fun _ => ?_, fun h => by simp at h⟩
       cases hs : s.str with
       | nil => rw [hs] at h1; simp at h1
       | cons c t => simp [Nat.add_comm 1]
@@ -266,8 +269,8 @@ theorem lexLexeme_ok {text : Bytes} {s : LexState} {c : UInt8} {t : Bytes} (hi :
       · split
         · exact absurd rfl hne
         · split
-          · exact adv_ok _ hi (by omega) hlen ⟨fun _ => hmem, fun h => by simp at h⟩
-          · exact adv_ok _ hi (by omega) hlen ⟨fun _ => hmem, fun h => by simp at h⟩
+          · exact adv_ok _ hi (by omega) hlen ⟨fun _ => hmem, fun h => by simp at h, fun h => by simp at h⟩
+          · exact adv_ok _ hi (by omega) hlen ⟨fun _ => hmem, fun h => by simp at h, fun h => by simp at h⟩
   · split
     · rename_i h; simp [hw] at h
     · have hp : 1 ≤ (nameIdent s.str).length := by simp [hw]
@@ -335,11 +338,11 @@ theorem nextToken_ok {text : Bytes} (o : LexOpts) {s : LexState} (hi : LInv text
           simp only [List.length_take] at hb
           have hile : i ≤ s.str.length := by omega
           obtain ⟨s1, tok, ha⟩ := advance_some .comment hile
-          have hinv := advance_inv ha hi (tokWF_trivial rfl (by simp))
+          have hinv := advance_inv ha hi (tokWF_trivial rfl (by simp) (by simp))
           simp only [ha]
           have h2 : 1 ≤ s1.str.length := by omega
           obtain ⟨s2, tok2, ha2⟩ := advance_some .undefined h2
-          have hinv2 := advance_inv ha2 hinv.1 (tokWF_trivial rfl (by simp))
+          have hinv2 := advance_inv ha2 hinv.1 (tokWF_trivial rfl (by simp) (by simp))
           simp only [advErr, ha2, StepOK]
           exact ⟨hinv2.1, by simp [hinv2.2.2.1]⟩
         · exact adv_ok _ hi hpos hle
@@ -404,7 +407,7 @@ theorem lexLoop_ok_aux {text : Bytes} (o : LexOpts) : ∀ (n : Nat) (s : LexStat
     · rename_i hemp
       have hnil : s.str = [] := by simpa using hemp
       obtain ⟨s', tok, ha⟩ := advance_some (s := s) (n := 0) .eof (Nat.zero_le _)
-      have hinv := advance_inv ha hi (tokWF_trivial rfl (by simp))
+      have hinv := advance_inv ha hi (tokWF_trivial rfl (by simp) (by simp))
       simp only [ha, LoopOK]
       refine ⟨hinv.1, ?_, tok, s.toks, hinv.2.2.1, hinv.2.2.2.2.2.1, ?_⟩
       · have := hinv.2.1; rw [hnil] at this; simpa using this
